@@ -90,6 +90,25 @@ struct rlbox_transition_timing
  * @tparam T_Sbx Type of sandbox. For the null sandbox this is
  * `rlbox_noop_sandbox`
  */
+namespace detail {
+  // Stand-in for a function pointer argument in invocability checks: converts
+  // to compatible function pointer types and to nothing else (a function
+  // pointer itself would also convert to bool)
+  template<typename T_Func>
+  struct func_ptr_arg_probe
+  {
+    template<typename T_To,
+             std::enable_if_t<is_func_ptr_v<T_To> &&
+                                std::is_assignable_v<T_To&, T_Func>,
+                              int> = 0>
+    operator T_To() const;
+  };
+
+  template<typename T_Arg>
+  using invoke_arg_probe_t = std::
+    conditional_t<is_func_ptr_v<T_Arg>, func_ptr_arg_probe<T_Arg>, T_Arg>;
+}
+
 template<typename T_Sbx>
 class rlbox_sandbox : protected T_Sbx
 {
@@ -816,6 +835,18 @@ public:
         T,
         detail::rlbox_remove_wrapper_t<std::remove_reference_t<T_Args>>...>,
       "Mismatched arguments types for function");
+
+    // is_invocable also holds when a callback or a function address is passed
+    // for a bool (or, through bool, an arithmetic) parameter, as pointers
+    // convert to bool. A function pointer argument is only acceptable for a
+    // parameter of a matching function pointer type
+    static_assert(
+      rlbox::detail::polyfill::is_invocable_v<
+        T,
+        detail::invoke_arg_probe_t<
+          detail::rlbox_remove_wrapper_t<std::remove_reference_t<T_Args>>>...>,
+      "A callback or function address can only be passed for a parameter of a "
+      "matching function pointer type");
 
     using T_Result = rlbox::detail::polyfill::invoke_result_t<
       T,
